@@ -509,7 +509,9 @@ impl DeviceControl for ControlHandle {
         let required_trailer_size = unwrap_or_log!(sirm.required_trailer_size(self));
 
         let payload_transfer_size = align!(PAYLOAD_TRANSFER_SIZE, u32);
-        let payload_transfer_count = (required_payload_size / payload_transfer_size as u64) as u32;
+        // The transfer count is a 32 bit register, a larger count can't be programmed.
+        let payload_transfer_count: u32 =
+            unwrap_or_log!((required_payload_size / payload_transfer_size as u64).try_into());
         let payload_final_transfer1_size =
             align!(required_payload_size % payload_transfer_size as u64, u64) as u32;
         let payload_final_transfer2_size = 0;
